@@ -97,6 +97,8 @@ class Unit:
             value = float(value)
         except ValueError as exc:
             raise ValueError("Value is not a valid float.") from exc
+        if value != value:
+            raise ValueError("Value is not a number.")
 
         if unit == 'U':
             return value, unit
@@ -137,8 +139,10 @@ class Unit:
             numerator[0] = float(numerator[0])
             if len(denominator) > 1:
                 numerator[0] /= float(denominator.pop(0))
-        except ValueError as exc:
+        except (ValueError, ZeroDivisionError) as exc:
             raise ValueError("Value is not a float.") from exc
+        if numerator[0] != numerator[0] or numerator[0] in (float('inf'), float('-inf')):
+            raise ValueError("Value is not a finite number.")
         units = ('mol', 'L', 'g', 'U')
         for unit in units:
             if numerator[1].endswith(unit):
